@@ -206,7 +206,11 @@ impl<'a, N: Normalizer> XmlSerializer<'a, N> {
                 // we don't want to output the xml prefix (another prefix, or
                 // the default namespace, bound to the xml namespace is a
                 // declaration like any other: names are written with it)
-                if *prefix_id == self.xot.xml_prefix() && *namespace_id == self.xot.xml_namespace() {
+                // (unless the element declares it itself, which is allowed)
+                if *prefix_id == self.xot.xml_prefix()
+                    && *namespace_id == self.xot.xml_namespace()
+                    && !self.xot.namespaces(node).contains_key(*prefix_id)
+                {
                     return Ok(OutputToken {
                         space: false,
                         text: "".to_string(),
